@@ -43,6 +43,11 @@ def rel_expr(rng):
                        "merge(3,4,k<=n)", "max(k,n)", 'len("a<b")', "len('x  y&')", 'len("C:\\a\\b\\c")'])
 
 
+def linked_type_args(rng):
+    return rng.choice(["4, merge(1, 2, k<n .and. n>k)", "merge(3,4,k<n.or.n>k)", "k<n", "n>k, k<n", "iand(k,n)", "4",
+                       'len("a<b>&")', "k<n.and.n>k"])
+
+
 def nocomma_rel(rng):
     return rng.choice(["kind(k<n)", "k", "2*k", "kind(k>n)", "selected_int_kind(9)"])
 
@@ -58,6 +63,8 @@ def ret_type(rng, mode):
     """canonical text of a function result type; a third of them carry a literal in the selector"""
     r = rng.random()
     hostile = mode == "all"
+    if r < 0.15 and hostile:
+        return f"type(box_t({linked_type_args(rng)}))"
     if r < 0.2:
         return f"integer(kind=kind({lit_selector(rng, hostile)}))"
     if r < 0.4:
@@ -92,12 +99,18 @@ def init_expr(rng):
 def gen_var(rng, i, where):
     """where: module | type | arg | local"""
     name = f"v{i}"
-    form = rng.choice(["init", "init", "dim", "dimattr", "kind", "strlen", "bindattr", "plain"] if where == "module" else
-                      ["init", "dim", "dimattr", "kind", "plain"] if where in ("type", "local") else
-                      ["dim", "dimattr", "kind", "plain", "strlen"])
+    form = rng.choice(["init", "init", "dim", "dimattr", "kind", "strlen", "bindattr", "plain", "dtype"] if where == "module" else
+                      ["init", "dim", "dimattr", "kind", "plain", "dtype"] if where in ("type", "local") else
+                      ["dim", "dimattr", "kind", "plain", "strlen", "dtype"])
     d = {"name": name, "form": form, "vartype": "integer", "kind": None, "strlen": None, "attribs": [], "dim": None,
          "initial": None, "parameter": False, "intent": None, "points": False, "has_literal": False}
-    if form == "init":
+    if form == "dtype":
+        # a declaration whose displayed type LINKS to a derived type of the project (the string goes through
+        # relurl with a link inside) and carries hostile text in the type parameters and / or the bounds
+        d["vartype"] = f"type(box_t({linked_type_args(rng)}))"
+        if rng.random() < 0.5:
+            d["dim"] = f"({rel_expr(rng)})"
+    elif form == "init":
         text, has = init_expr(rng)
         d["initial"], d["has_literal"] = text, has
         if has:
@@ -242,7 +255,9 @@ def render_project(p, control=False):
     and the relational operators of expressions, are replaced by x."""
     def T(text):
         return control_text(text) if control else text
-    L = ["module m", "  implicit none", "  integer, parameter :: k = 1, n = 2"]
+    L = ["module m", "  implicit none", "  integer, parameter :: k = 1, n = 2",
+         "  type :: box_t", "    !! a type of the project: declarations of this type show a link", "    integer :: bz = 0",
+         "  end type box_t"]
     for d in p["mod_vars"]:
         L.append(T(render_var(d)))
         L.append(f"    !! doc of {d['name']}")
